@@ -1314,6 +1314,40 @@ package badger
 //@   assert[split-ends-at-boundary] before call append : skr.right == ret(Copy#1)
 //@   assert[next-starts-at-boundary] before return : skr.left == skr.right
 
+// Replacing the tables of a level: a table stays exactly when its id is not among the deleted
+// ones; added tables are referenced and appended; the new list is installed and sorted by
+// smallest key while the level's lock is held; the old tables lose their reference only after
+// the lock was released.
+//@ func (*levelHandler).replaceTables
+//@   props C12 C14
+//@   light
+//@   assert[kept-iff-not-deleted] before call append#1 : !found && held(s.RWMutex)
+//@   assert[dropped-iff-deleted] before call subtractSize : found && arg1 == t
+//@   assert[added-referenced] before call append#2 : called(IncrRef) && held(s.RWMutex)
+//@   assert[installed-under-lock] before call Slice : held(s.RWMutex) && s.tables == newTables
+//@   assert[old-released-after-unlock] before call decrRefs : !held(s.RWMutex) && arg0 == toDel
+
+//@ func (*levelHandler).replaceTables.$1
+//@   props C12 C14
+//@   requires s != nil && 0 <= i && i < len(s.tables) && 0 <= j && j < len(s.tables) && s.tables[i] != nil && s.tables[j] != nil
+//@   domain len(s.tables[i].smallest) >= 8 && len(s.tables[j].smallest) >= 8
+//@   ensures[by-smallest-key] result <==> keycmp(s.tables[i].smallest, s.tables[j].smallest) < 0
+//@   assigns nothing
+
+//@ func (*levelHandler).deleteTables
+//@   props C12 C14
+//@   light
+//@   assert[kept-iff-not-deleted] before call append : !found && held(s.RWMutex)
+//@   assert[dropped-iff-deleted] before call subtractSize : found && arg1 == t
+//@   assert[old-released-after-unlock] before call decrRefs : !held(s.RWMutex) && arg0 == toDel && s.tables == newTables
+
+// Level 0 keeps its tables in arrival order (newest last); a flush stalls when the level is full.
+//@ func (*levelHandler).tryAddLevel0Table
+//@   props C12 C14
+//@   light
+//@   assert[stall-when-full] before return#1 : !result && len(s.tables) >= s.db.opt.NumLevelZeroTablesStall
+//@   assert[appended-last] before call IncrRef : arg0 == t && len(s.tables) >= 1 && s.tables[len(s.tables)-1] == t && held(s.RWMutex)
+
 // ---- call-order rules that recovery relies on (C08, C10): ordering obligations only ----
 // Neither property is decided (a crash point is a cut through the effects of several
 // goroutines; a power loss needs a model of which writes survive). What is checked is that the
